@@ -85,7 +85,10 @@ impl LazyRecordIterator<'_> {
 
     /// Parse a record without a schema
     fn parse_record_raw(&mut self) -> Result<Record> {
-        let mut values = Vec::with_capacity(self.header.field_count as usize);
+        let mut values = Vec::with_capacity(crate::field_parser::raw_record_capacity(
+            &self.cursor,
+            self.header.field_count,
+        )?);
 
         for _ in 0..self.header.field_count {
             // Without a schema, we assume all fields are 32-bit integers
@@ -194,7 +197,10 @@ impl<'a> LazyDbcParser<'a> {
 
     /// Parse a record without a schema
     fn parse_record_raw(&self, cursor: &mut Cursor<&'a [u8]>) -> Result<Record> {
-        let mut values = Vec::with_capacity(self.header.field_count as usize);
+        let mut values = Vec::with_capacity(crate::field_parser::raw_record_capacity(
+            cursor,
+            self.header.field_count,
+        )?);
 
         for _ in 0..self.header.field_count {
             // Without a schema, we assume all fields are 32-bit integers
